@@ -359,6 +359,7 @@ gen(Src& s, int size)
   c["crlf"] = s.chance(1, 6);
   c["start"] = s.chance(1, 20) ? 0 : 1; // 0: start key missing (parse has to fail)
   c["fmt"] = long(s.range(0, (1L << 31) - 1));
+  c["remove"] = s.chance(1, 6) ? long(s.range(0, NKEYS - 1)) : -1L;
   return c;
 }
 
@@ -695,15 +696,79 @@ show(const std::vector<T>& v)
   return s.str();
 }
 
+//! "" if two sets of variables are equal, else the name of the first that differs
+std::string
+first_difference(const Vars& a, const Vars& x)
+{
+  if (a.i != x.i) return "an int";
+  if (a.l != x.l) return "a long";
+  if (a.u != x.u) return "an unsigned";
+  if (a.ul != x.ul) return "an unsigned long";
+  if (a.f != x.f) return "a float";
+  if (a.d != x.d) return "a double";
+  if (a.b != x.b) return "a bool";
+  if (a.s != x.s) return "a string";
+  if (a.choice != x.choice) return "a choice";
+  if (a.il != x.il) return "int list";
+  if (a.dl != x.dl) return "double list";
+  if (a.sl != x.sl) return "string list";
+  if (!(a.a2 == x.a2)) return "array 2d";
+  if (!(a.a3 == x.a3)) return "array 3d";
+  if (!(a.co == x.co)) return "a coordinate";
+  for (int d = 1; d <= 3; ++d)
+    if (!(a.coa[d] == x.coa[d])) return "coordinate of arrays";
+  if (a.vi != x.vi) return "v int";
+  if (a.vu != x.vu) return "v unsigned";
+  if (a.vul != x.vul) return "v unsigned long";
+  if (a.vf_ != x.vf_) return "v float";
+  if (a.vd != x.vd) return "v double";
+  if (a.vs != x.vs) return "v string";
+  if (a.vil != x.vil) return "v int list";
+  if (a.vdl != x.vdl) return "v double list";
+  if (a.t != x.t) return "time (hh:mm:ss)";
+  if (a.vr != x.vr) return "v ratio a:b";
+  return "";
+}
+
+//! index of the key that is removed with remove_key() before parsing (-1: none).  Keys with aliases and the ignored key are left alone.
+int
+removed_key(const json& c)
+{
+  if (!c.contains("remove"))
+    return -1;
+  const long r = c["remove"].get<long>();
+  if (r < 0)
+    return -1;
+  int k = int(r % NKEYS);
+  for (int guard = 0; guard < NKEYS; ++guard, k = (k + 1) % NKEYS)
+    {
+      bool has_alias = KEYS[k].alias_of != nullptr || KEYS[k].kind == K_IGNORED;
+      for (int i = 0; i < NKEYS; ++i)
+        if (KEYS[i].alias_of && std::string(KEYS[i].alias_of) == KEYS[k].name)
+          has_alias = true;
+      if (!has_alias)
+        return k;
+    }
+  return -1;
+}
+
 Result
 check(const json& c)
 {
   c17::quiet();
   const std::string text = render(c);
+  // remove_key(): "Removes a keyword from the list of keywords; returns true if it was found".  Lines with a removed keyword are
+  // lines with an unknown keyword: ignored (KeyParser.h), whatever their index or value.
+  const int removed = removed_key(c);
   Expect e;
   std::size_t n_before_error = 0;
   for (const auto& st : c["st"])
     {
+      if (removed >= 0 && decode(st).type != 1 && decode(st).type != 2 && decode(st).type != 3 && target_of(decode(st).key) == removed)
+        {
+          ++n_before_error;
+          continue;
+        }
       apply(e, st);
       if (e.error)
         break;
@@ -712,6 +777,13 @@ check(const json& c)
   const bool with_start = c["start"].get<int>() != 0;
 
   Synthetic p;
+  if (removed >= 0)
+    {
+      stats().cls("a key removed with remove_key() before parsing");
+      // (the keymap holds standardised keywords and remove_key() compares verbatim: the standardised spelling is what is documented to work)
+      VF_CHECK(p.remove_key(c17::ref_standardise(KEYS[removed].name)), "remove_key() does not find the registered keyword '", KEYS[removed].name, "'");
+      VF_CHECK(!p.remove_key(c17::ref_standardise(KEYS[removed].name)), "remove_key() finds the keyword '", KEYS[removed].name, "' a second time");
+    }
   bool threw = false;
   bool ok = false;
   std::string what;
@@ -788,11 +860,57 @@ check(const json& c)
     for (int d = 1; d <= 3; ++d)
       VF_CHECK(same_array3(a.coa[d], e.coa[std::size_t(d - 1)]), "coordinate of arrays, component ", d, " differs", ctx);
 
+  // ---- the sibling overloads parse(std::istream&) and parse(const char* filename) give what parse(const std::string&) gives
+  {
+    Synthetic ps, pf;
+    if (removed >= 0)
+      {
+        (void)ps.remove_key(c17::ref_standardise(KEYS[removed].name));
+        (void)pf.remove_key(c17::ref_standardise(KEYS[removed].name));
+      }
+    bool oks = false, okf = false, threws = false, threwf = false;
+    try
+      {
+        std::istringstream in(text);
+        oks = ps.parse(in, false);
+      }
+    catch (const stir_verif::AssertionFailure&)
+      {
+        throw;
+      }
+    catch (const std::exception&)
+      {
+        threws = true;
+      }
+    const std::string fn = c17::scratch_dir() + "/kp.par";
+    c17::write_file(fn, text);
+    try
+      {
+        okf = pf.parse(fn.c_str(), false);
+      }
+    catch (const stir_verif::AssertionFailure&)
+      {
+        throw;
+      }
+    catch (const std::exception&)
+      {
+        threwf = true;
+      }
+    c17::clean_scratch();
+    VF_CHECK(oks == ok && threws == threw, "parse(istream&) returns ", oks, "/threw ", threws, ", parse(string) returned ", ok, "/threw ", threw, ctx);
+    VF_CHECK(okf == ok && threwf == threw, "parse(filename) returns ", okf, "/threw ", threwf, ", parse(string) returned ", ok, "/threw ", threw, ctx);
+    VF_CHECK(first_difference(ps.v, p.v).empty(), "parse(istream&) stores another value than parse(string) in '", first_difference(ps.v, p.v), "'", ctx);
+    VF_CHECK(first_difference(pf.v, p.v).empty(), "parse(filename) stores another value than parse(string) in '", first_difference(pf.v, p.v), "'", ctx);
+    stats().cls("overloads parse(istream&) / parse(filename) compared with parse(string)");
+  }
+
   // ---- the synthetic parser's own print must be re-parsable and idempotent after one round
   if (!e.error)
     {
       const std::string t1 = p.parameter_info();
       Synthetic q;
+      if (removed >= 0)
+        (void)q.remove_key(c17::ref_standardise(KEYS[removed].name));
       bool ok2 = false;
       try
         {
